@@ -397,3 +397,17 @@ Proof.
 Qed.
 Theorem subtype_strip a b : subtype a (strip_ty b) = subtype a b /\ subtype (strip_ty a) b = subtype a b.
 Proof. split; [apply subtype_strip_r|apply subtype_strip_l]. Qed.
+
+(* the state of the tree before F3 (alias scalar type stored verbatim) violates spelling canonicity: witness table *)
+Theorem spelling_alias_refuted :
+  exists canon tbl,
+    (forall r, In r tbl -> exists st c, sp_result r = Accepted st c /\ sp_onnx r = Some c) /\   (* both spellings accepted, same code *)
+    ~ spellings_canonical canon tbl.
+Proof.
+  exists [(7%N, 0%N)], [mkrow "int64" (Some 7%N) (Accepted 0 7); mkrow "longlong" (Some 7%N) (Accepted 1 7)].
+  split.
+  - intros r [H|[H|[]]]; subst; simpl; eauto.
+  - intros [_ [_ H]].
+    specialize (H (mkrow "int64" (Some 7%N) (Accepted 0 7)) (mkrow "longlong" (Some 7%N) (Accepted 1 7)) 0%N 1%N 7%N).
+    assert (E : 0%N = 1%N) by (apply H; simpl; auto). discriminate.
+Qed.
